@@ -2,9 +2,11 @@ package main
 
 import (
 	"fmt"
+	"github.com/mmcloughlin/avo/gotypes"
 	"go/ast"
 	"go/parser"
 	"go/token"
+	"go/types"
 	"path/filepath"
 	"strings"
 
@@ -15,9 +17,9 @@ import (
 func init() { props["C08"] = c08 }
 
 type movRow struct {
-	An, Bn         string
-	Pa, Pb, Cond   string
-	Op             string
+	An, Bn       string
+	Pa, Pb, Cond string
+	Op           string
 }
 
 func flattenAnd(e ast.Expr) []ast.Expr {
@@ -154,41 +156,99 @@ func c08(c *Ctx) {
 	o.Stage("Tab.v")
 	o.Oblig("Tab.info_constants_ok")
 
-	// complete enumeration through the real Context.Load / Context.Store
+	// complete enumeration through the real Context.Load / Context.Store, the component being reached
+	// directly, as a defined type, as a struct field, an array element, through a pointer, and as the
+	// real/imaginary part of a (defined) complex value: the move depends on the leaf kind only
+	type via struct {
+		name  string
+		decls func(kind string) []string // type declarations
+		typ   func(kind string) string   // type of the parameter / result
+		path  func(c gotypes.Component) gotypes.Component
+		ok    func(kind string, store bool) bool
+	}
+	cplx := map[string]string{"float32": "complex64", "float64": "complex128"}
+	all := func(string, bool) bool { return true }
+	vias := []via{
+		{"direct", nil, func(k string) string { return k }, func(c gotypes.Component) gotypes.Component { return c }, all},
+		// (a parameter whose own type is a defined type is refused by Resolve, "component is not primitive": no move to check)
+		{"struct field", nil, func(k string) string { return "struct{ a uint8; f " + k + " }" }, func(c gotypes.Component) gotypes.Component { return c.Field("f") }, all},
+		{"array element", nil, func(k string) string { return "[3]" + k }, func(c gotypes.Component) gotypes.Component { return c.Index(2) }, all},
+		{"through pointer", nil, func(k string) string { return "*" + k }, func(c gotypes.Component) gotypes.Component { return c.Dereference(reg.R8) }, func(_ string, st bool) bool { return !st }},
+		{"real part", nil, func(k string) string { return cplx[k] }, func(c gotypes.Component) gotypes.Component { return c.Real() }, func(k string, _ bool) bool { return cplx[k] != "" }},
+		{"imaginary part", nil, func(k string) string { return cplx[k] }, func(c gotypes.Component) gotypes.Component { return c.Imag() }, func(k string, _ bool) bool { return cplx[k] != "" }},
+		{"real part of a defined complex type", func(k string) []string { return []string{"type Z " + cplx[k]} }, func(string) string { return "Z" }, func(c gotypes.Component) gotypes.Component { return c.Real() }, func(k string, _ bool) bool { return cplx[k] != "" }},
+		{"imaginary part of a defined complex type", func(k string) []string { return []string{"type Z " + cplx[k]} }, func(string) string { return "Z" }, func(c gotypes.Component) gotypes.Component { return c.Imag() }, func(k string, _ bool) bool { return cplx[k] != "" }},
+	}
+	mksig := func(decls []string, expr string) *gotypes.Signature {
+		if len(decls) == 0 {
+			sg, err := gotypes.ParseSignature(expr)
+			if err != nil {
+				die(fmt.Errorf("%s: %v", expr, err))
+			}
+			return sg
+		}
+		fset := token.NewFileSet()
+		pf, err := parser.ParseFile(fset, "p.go", "package p\n"+strings.Join(decls, "\n")+"\n", 0)
+		if err != nil {
+			die(err)
+		}
+		pkg, err := (&types.Config{}).Check("p", fset, []*ast.File{pf}, nil)
+		if err != nil {
+			die(err)
+		}
+		sg, err := gotypes.ParseSignatureInPackage(pkg, expr)
+		if err != nil {
+			die(fmt.Errorf("%s: %v", expr, err))
+		}
+		return sg
+	}
 	var cases []string
-	for _, st := range []bool{false, true} {
-		for ki, kind := range movKinds {
-			for ci, cl := range classes {
-				for _, phys := range []bool{false, true} {
-					ctx := build.NewContext()
-					ctx.Function("f")
-					if st {
-						ctx.SignatureExpr("func() (r " + kind + ", pad uint64)")
-					} else {
-						ctx.SignatureExpr("func(x " + kind + ", pad uint64)")
+	for _, v := range vias {
+		for _, st := range []bool{false, true} {
+			for ki, kind := range movKinds {
+				if !v.ok(kind, st) {
+					continue
+				}
+				for ci, cl := range classes {
+					for _, phys := range []bool{false, true} {
+						ctx := build.NewContext()
+						ctx.Function("f")
+						var decls []string
+						if v.decls != nil {
+							decls = v.decls(kind)
+						}
+						if st {
+							ctx.Signature(mksig(decls, "func() (r "+v.typ(kind)+", pad uint64)"))
+						} else {
+							ctx.Signature(mksig(decls, "func(x "+v.typ(kind)+", pad uint64)"))
+						}
+						r := cl.mk(phys)
+						if st {
+							ctx.Store(r, v.path(ctx.Return("r")))
+						} else {
+							ctx.Load(v.path(ctx.Param("x")), r)
+						}
+						f, err := ctx.Result()
+						is := f.Functions()[0].Instructions()
+						obs := "None"
+						desc := "error"
+						if err == nil && len(is) == 1 {
+							obs = "(Some " + cStr(is[0].Opcode) + ")"
+							desc = is[0].Opcode
+						} else if err == nil || len(is) != 0 {
+							o.Plan.GoViolations = append(o.Plan.GoViolations, GoViolation{Key: "mov:shape", Desc: fmt.Sprintf("Load/Store of %s (%s) with %s: %d instructions and error %v", kind, v.name, r.Asm(), len(is), err)})
+						}
+						dir := "load"
+						if st {
+							dir = "store"
+						}
+						cases = append(cases, fmt.Sprintf("(%s, %d, %d, %s, %s)", cBool(st), ki, ci, cStr(r.Asm()), obs))
+						key := fmt.Sprintf("mov:%s:%s:%s", dir, kind, cl.name)
+						if v.name != "direct" {
+							key += ":" + v.name
+						}
+						o.AddCase(Case{Key: key, Desc: fmt.Sprintf("%s %s (%s) <-> %s (%s): %s", dir, kind, v.name, cl.name, r.Asm(), desc), Input: map[string]any{"dir": dir, "kind": kind, "via": v.name, "class": cl.name, "physical": phys}, Nontrivial: desc != "error"})
 					}
-					r := cl.mk(phys)
-					if st {
-						ctx.Store(r, ctx.Return("r"))
-					} else {
-						ctx.Load(ctx.Param("x"), r)
-					}
-					f, err := ctx.Result()
-					is := f.Functions()[0].Instructions()
-					obs := "None"
-					desc := "error"
-					if err == nil && len(is) == 1 {
-						obs = "(Some " + cStr(is[0].Opcode) + ")"
-						desc = is[0].Opcode
-					} else if err == nil || len(is) != 0 {
-						o.Plan.GoViolations = append(o.Plan.GoViolations, GoViolation{Key: "mov:shape", Desc: fmt.Sprintf("Load/Store of %s with %s: %d instructions and error %v", kind, r.Asm(), len(is), err)})
-					}
-					dir := "load"
-					if st {
-						dir = "store"
-					}
-					cases = append(cases, fmt.Sprintf("(%s, %d, %d, %s, %s)", cBool(st), ki, ci, cStr(r.Asm()), obs))
-					o.AddCase(Case{Key: fmt.Sprintf("mov:%s:%s:%s", dir, kind, cl.name), Desc: fmt.Sprintf("%s %s <-> %s (%s): %s", dir, kind, cl.name, r.Asm(), desc), Input: map[string]any{"dir": dir, "kind": kind, "class": cl.name, "physical": phys}, Nontrivial: desc != "error"})
 				}
 			}
 		}
@@ -208,7 +268,7 @@ func c08(c *Ctx) {
 	o.ExpectEmpty("Mov.v", "R_unparsed", "obligation", "a case of build/zmov.go has a shape or an opcode the model does not know")
 	o.ExpectEmpty("Mov.v", "R_mismatch", "mismatch", "first-matching-row model of Context.mov vs the instruction Context.Load/Store appends")
 	o.ExpectEmpty("Mov.v", "R_violation", "violation", "the move chosen for this component type and register accesses more or fewer bytes than the component, or extends it against Go's conversion rule")
-	o.Plan.Rule = "complete enumeration: 12 basic component kinds x 8 register classes (GP 8/16/32/64, XMM, YMM, ZMM, K) x {load, store} x {virtual, physical register} through the real Context.Load/Store; non-trivial = an instruction was chosen; distinct by (direction, kind, class, physical)"
+	o.Plan.Rule = "complete enumeration: 12 basic component kinds (reached directly, as a defined type, struct field, array element, through a pointer, and as real/imaginary part of a plain or defined complex value) x 8 register classes (GP 8/16/32/64, XMM, YMM, ZMM, K) x {load, store} x {virtual, physical register} through the real Context.Load/Store; non-trivial = an instruction was chosen; distinct by (direction, kind, class, physical)"
 	o.Plan.Stats["rows_in_zmov"] = len(rows)
 	o.Plan.Stats["pairs"] = len(cases)
 	o.Plan.Stats["exhaustive_values"] = true
